@@ -1221,7 +1221,6 @@ func (repo *Repository) load(ctx context.Context, depth int) error {
 		}
 
 		branches = append(branches, branch)
-		repo.loadBranchHashHeights(ctx, branch)
 	}
 
 	if len(branches) == 0 {
@@ -1236,6 +1235,7 @@ func (repo *Repository) load(ctx context.Context, depth int) error {
 		if branch.parentHeight == -1 {
 			// main branch
 			repo.branches = append(repo.branches, branch)
+			repo.loadBranchHashHeights(ctx, branch)
 			continue
 		}
 
@@ -1248,6 +1248,7 @@ func (repo *Repository) load(ctx context.Context, depth int) error {
 		}
 
 		repo.branches = append(repo.branches, branch)
+		repo.loadBranchHashHeights(ctx, branch)
 	}
 
 	if err := repo.loadHistoricalHashHeights(ctx); err != nil {
